@@ -142,3 +142,14 @@ CHECKS['C17'] = dict(
          '(one count per listed token); the comment query keeps order and filters by key prefix; is_monophonic has the stated truth table.',
     note='Not decided: the listing order through arbitrary split/join trees (needs C02 as well). Trusted: list.pop/extend/reversed semantics.',
 )
+
+CHECKS['C01'] = dict(
+    category='other',
+    technique='order-taint dataflow to every str.join of NoteRestToken.export; who-may-write + dominance rule on the listener\'s decoration list; sort-key evaluation on FIRST sets read from the ANTLR grammar (grammar model); separator/placeholder table agreement',
+    text='Decides necessary structural conditions of idempotent, canonical normalisation: every joined sub-token sequence is sorted by a key of the '
+         'element only (total on signifiers), the decoration list is de-duplicated by a dominating guard and reset per cell, the exported order '
+         'agrees with the grammar order (category ranks; no reordering inside DURATION, evaluated on the grammar\'s FIRST sets), the plain '
+         'encoding and get_kern_from_ekern erase exactly the separators, placeholder and null-row tables agree.',
+    note='Claims these clauses only - NOT the fixed-point behaviour itself: the generated ALL(*) parser is not analysed, so import(export(x)) == x '
+         'on all documents is not decided by this family.',
+)
